@@ -41,7 +41,7 @@ def iface(name, crit, vis, params):
 //@   use (criteria ranges planner heapcomps)
 //@   params ({params})
 //@   ghost d Doc
-//@   requires wf: (cwf {crit})
+//@   requires wf: (ite (isNormV {vis}) (cshape {crit}) (cwf {crit}))
 //@   requires visitor: {vis_req(vis)}
 // the document the cover is stated for holds key-exact canonical values (assumption A14)
 //@   requires domain: {DOM}
@@ -131,7 +131,15 @@ root_block.append(visit("FieldRangeVisitor", "Not", """//@   reveal (cwf (box c)
 //@   reveal (cwf (@ c C))
 //@   reveal (psat (box c) d)
 """))
-for n, ex in (("Unary", ""), ("Binary", "//@   reveal (cwf (box c))\n//@   reveal (cwf (@ c C1))\n//@   reveal (cwf (@ c C2))\n"), ("Not", "//@   reveal (cwf (box c))\n//@   reveal (cwf (@ c C))\n")):
+NOFIELD = """// operand lists are finite trees: a list is not one of its own elements
+//@   assumes list-not-self-containing: (=> (isSliceC (@ c Value)) (forall ((j (_ BitVec 64))) (! (=> (bvult j (sllen (lval (@ c Value)))) (not (= (select (st C_interfaceBB) (selemaddr (lval (@ c Value)) j)) (@ c Value)))) :pattern ((select (st C_interfaceBB) (selemaddr (lval (@ c Value)) j))))))
+// a field operand (Field(name)) is read from each document at evaluation time: it must never go through the
+// literal normaliser, neither as the operand nor as an element of an In / Contains list (C16, C01)
+//@   assert-before[C16,C01] Normalize no-field-operand-normalised: (and (not (isFieldRef $value))
+//@        (=> (and (= $value (@ c Value)) (isSliceC $value) (or (= (@ c OpType) OP_IN) (= (@ c OpType) OP_CONTAINS)))
+//@            (forall ((j (_ BitVec 64))) (! (=> (bvult j (sllen (lval $value))) (not (isFieldRef (select (st C_interfaceBB) (selemaddr (lval $value) j))))) :pattern ((select (st C_interfaceBB) (selemaddr (lval $value) j)))))))
+"""
+for n, ex in (("Unary", "//@   reveal (cshape (box c))\n" + NOFIELD), ("Binary", "//@   reveal (cshape (box c))\n//@   reveal (cshape (@ c C1))\n//@   reveal (cshape (@ c C2))\n"), ("Not", "//@   reveal (cshape (box c))\n//@   reveal (cshape (@ c C))\n")):
     root_block.append(visit("CriteriaNormalizeVisitor", n, ex))
 root_block.append("""// the range an ordering comparison against a literal confines the field to (absent = nil)
 //@ func unaryCriteriaToRange
